@@ -1336,11 +1336,14 @@ class Facts:
     def closures_of(self, body):
         """closures defined in the body - and in the helpers that were spliced into it (see _inline_new_helpers)"""
         pres = [body.id + '::{closure#']
+        spliced = set()
         for blk in body.blocks:
             src = blk.get('inlined_from')
             if src and src + '::{closure#' not in pres:
                 pres.append(src + '::{closure#')
-        return [b for b in self.body_list if b.id.startswith(tuple(pres))]
+            if src and '::{closure#' in src:
+                spliced.add(src)     # a closure whose body is part of this body now (see _closure_call): not listed twice
+        return [b for b in self.body_list if b.id.startswith(tuple(pres)) and b.id not in spliced]
 
 
 def callee_name(t):
